@@ -335,6 +335,7 @@ class Gen:
             self.sid += 1
             self.fname += 1
             sid = self.sid
+            gname = self.fname
             subdesc = r.choice([b"Sub Group", b"Extra Options", b"More", "Gruppe é".encode()])
             kv = [(b"group", subdesc)]
             gns = ()
@@ -351,17 +352,18 @@ class Gen:
             isnil = ptr and self.chance("p_nil_ptr")
             sub = self.gen_fields(scope, node, depth + 1, True, ns + gns, envns + gens, subdesc)
             if isnil: self.defunc(sub, node)
-            fields.append({"name": ("G%d" % self.fname).encode(), "exported": True, "tag": self.tag_of(kv),
+            fields.append({"name": ("G%d" % gname).encode(), "exported": True, "tag": self.tag_of(kv),
                            "struct": {"ptr": ptr, "nil": isnil, "fields": sub, "sid": sid}})
         if depth < 3 and self.chance("p_plain_nested"):
             self.sid += 1
             self.fname += 1
+            mysid, myname = self.sid, self.fname
             ptr = r.random() < 0.5
             isnil = ptr and r.random() < 0.5
             sub = self.gen_fields(scope, node, depth + 1, in_group, ns, envns, gdesc)
             if isnil: self.defunc(sub, node)
-            fields.append({"name": ("N%d" % self.fname).encode(), "exported": True, "tag": b"",
-                           "struct": {"ptr": ptr, "nil": isnil, "fields": sub, "sid": self.sid}})
+            fields.append({"name": ("N%d" % myname).encode(), "exported": True, "tag": b"",
+                           "struct": {"ptr": ptr, "nil": isnil, "fields": sub, "sid": mysid}})
         r.shuffle(fields) if r.random() < 0.3 else None
         return fields
 
